@@ -7,6 +7,9 @@ CHECKS = {
  "C03": ("runtime round-trip monitor: packet API output checked by an independent strict TLV walker and re-decoded under many segmentations",
          "Every generated (name, optional-field subset, payload split, signer) case is built by MakeData/MakeInterest, verified byte-level by an independent walker (exact lengths, shortest form, field bytes), and decoded contiguously and under 20-150 segmentations per packet; all decoded fields, the signed portion and the standalone Name/Component encoders are compared. ~10^4 (quick) to 10^5 (thorough) packets per run.",
          "Trusted: internal/tlvwalk and its container schema; Interest names without caller-invented ParametersSha256Digest components; nonce/hop-limit within their wire domain.", "5/C03"),
+ "C12": ("runtime monitor: signer input vs parser-reported vs independently computed signed portion; exhaustive/sampled single-bit tampering against decode + matching validator",
+         "For every generated signed packet (all shipped signers, Data and Interest variants) the bytes handed to the signer, the signed portion the parser returns (contiguous and segmented) and the spec-defined portion located by an independent walker must be identical, the matching validator and the harness's own crypto must accept; then every single-bit flip inside signed portion / signature value / parameters (all bits of small packets, uniform sample of large ones; ~7x10^5 flips per quick run) must be rejected; wrong parameter digests must be rejected.",
+         "Trusted: internal/tlvwalk signed-range computation per NDN packet spec v0.3; Go crypto.", "5/C12"),
  "C14": ("runtime law monitor over generated name pairs/triples + panic sanitizing of the URI parsers",
          "Every law of the statement (canonical total order, Equal<=>encoding equality<=>Compare==0, prefix relation, Equal=>Hash equal, PrefixHash[i]=Hash(name[:i]), URI round trip, parsers never panic) is evaluated by an oracle on >10^5 generated, adversarially close cases per run; a run reports the distinct relation/shape classes it actually observed.",
          "Trusted: the harness's own 20-line canonical order; hash collisions are not searched for.", "5/C14"),
